@@ -76,7 +76,7 @@ Qed.
 Theorem put_enabled e owner id k s rec c bkey ba amt ub :
   Inv_core s ->
   batch_by_denom s (bcr_denom c) = Some (bkey, ba) ->
-  admitted e s id k ba ->                                  (* class allowed, credit type, date criteria *)
+  acceptable e s id k ba ->                                  (* class allowed, credit type, date criteria *)
   posfixed P (bcr_amount c) = Ok amt ->                    (* amount > 0 with at most 6 decimal places *)
   dexp amt <= 0 -> num_digits (dcoef amt) <= precision128 -> (* amount * 10^6 fits 34 digits *)
   balances s !! (owner, bkey) = Some ub ->
